@@ -65,7 +65,7 @@ RES_DEFAULT = F(1, 1000)
 
 
 def budget_s(tier):
-    return 900 if tier == "quick" else 7200
+    return 3600 if tier == "quick" else 10800
 
 
 LEVELS_QUICK = [(2, 1, K_ALL), (2, 2, K_ALL), (3, 2, K_ALL), (2, 3, K12), (3, 3, K12), (3, 4, K4), (2, 3, KPHYS), (3, 3, KPHYS)]
